@@ -547,6 +547,13 @@ pub fn run(ctx: &mut Ctx) {
             _ => 9,
         };
         let mut spec = gen_spec(&mut crng, kind, ctx.quick());
+        // the extreme levels of every algorithm (the quantifier is over algorithm x level): a few cases of the
+        // ordinary mixed kind are created at the highest levels the algorithms accept
+        if kind == 9 && (case % 11 == 8 || case % 11 == 9) {
+            spec.comp = [Comp::Zstd(19), Comp::Zstd(20), Comp::Zstd(22), Comp::Lzma(9), Comp::Lz4(12), Comp::Zstd(21), Comp::Lzma(6), Comp::Lz4(16)][((case / 11) % 8) as usize];
+            spec.packaging = None;
+            spec.label.push_str("-extreme-level");
+        }
         if kind == 2 {
             spec.comp = *crng.pick(&[Comp::Zstd(1), Comp::Lz4(1)]);
             spec.packaging = None;
